@@ -28,6 +28,7 @@ inductive LoopPc
   | holding         -- has put its token into the semaphore, in (or about to call) `Dequeue`
   | exitedStop      -- returned through `case <-stopCh`
   | exitedShutdown  -- returned through `if shuttingdown` (its token stays in the semaphore)
+  | crashed         -- `Dequeue` handed out a nil request: `recordPushTriggers(push.Reason)` dereferences it (panic)
   deriving DecidableEq, Repr
 
 /-- A dequeued (connection, request) travelling towards its `done()`. -/
@@ -95,7 +96,10 @@ def stepS (s : Sender) : SEv → Option Sender
       | .blocked => none
       | .shutdown => some { s with loop := .exitedShutdown }
       | .got c r =>
-        some { s with q := dequeueState s.q, parked := s.parked ++ [(c, r)], loop := .top, deqs := bump s.deqs c }
+        match r with
+        | none => some { s with q := dequeueState s.q, loop := .crashed, deqs := bump s.deqs c }
+        | some _ =>
+          some { s with q := dequeueState s.q, parked := s.parked ++ [(c, r)], loop := .top, deqs := bump s.deqs c }
     else none
   | .deliver c =>
     match takeFlight c s.parked with
@@ -128,7 +132,7 @@ def runS (s : Sender) : List SEv → Option Sender
 
 /-- The semaphore token the loop itself accounts for. -/
 def LoopPc.holds : LoopPc → Nat
-  | .holding | .exitedShutdown => 1
+  | .holding | .exitedShutdown | .crashed => 1
   | _ => 0
 
 /-! ### Running the autonomous part to quiescence (used by the driver)
